@@ -494,6 +494,28 @@ func robustFamilies(c *CheckCtx, modes [][]string) []family {
 			return &robustCase{Exec: srcExec(sb.String(), pickMode(r)...)}
 		}},
 	}
+	fams = append(fams, family{name: "inheritance-lattice", n: c.N(40, 600), gen: func(r *RNG, i int) *robustCase {
+		// a lattice of modules in which every level includes (or extends) both
+		// modules of the level below: 2^depth paths to the bottom, 2*depth+2
+		// ancestors; look-ups of present and absent methods and attributes
+		depth := 4 + r.Intn(20)
+		verb := Pick(r, []string{"include", "include", "extend"})
+		var sb strings.Builder
+		sb.WriteString("module L0a\n  attr_accessor :level\n  def base_m\n    1\n  end\nend\nmodule L0b\n  def other_m\n    \"s\"\n  end\nend\n")
+		for d := 1; d <= depth; d++ {
+			for _, x := range []string{"a", "b"} {
+				fmt.Fprintf(&sb, "module L%d%s\n  include L%da\n  include L%db\nend\n", d, x, d-1, d-1)
+			}
+		}
+		fmt.Fprintf(&sb, "class Top\n  %s L%da\n  %s L%db\n  def own\n    @missing_ivar\n  end\nend\n", verb, depth, verb, depth)
+		sb.WriteString("class Sub < Top\nend\nt = Sub.new\n")
+		for _, call := range []string{"t.zz_missing", "t.base_m", "t.other_m", "t.level", "t.own", "Sub.zz_missing", "Sub.base_m", "t.level = 1"} {
+			if r.Bool() {
+				sb.WriteString("dbtp " + call + "\n")
+			}
+		}
+		return &robustCase{Exec: srcExec(sb.String(), pickMode(r)...)}
+	}})
 	fams = append(fams, generatedFamilies(c, modes)...)
 	return fams
 }
@@ -555,7 +577,7 @@ func init() {
 		runFamilies(c, robustFamilies(c, [][]string{{}, {"-i"}}), "C01", c.N(3, 2), false)
 	}})
 	register(&Check{ID: "C02", Title: "terminates without the watchdog", Replay: replayRobust("C02"), Run: func(c *CheckCtx) {
-		c.rule = "same input families as C01 plus inheritance/include cycles; a run is a hang candidate when the logical watchdog (EOF-read or token-fetch budget, > 100x the measured legitimate maximum) trips in-process or the worker overflows its stack; it is a violation only if the plain binary then prints `timeout` in 3 of 3 serial reruns made while all workers are paused. distinct_nontrivial = distinct (mode, source) pairs whose run printed output or hung"
+		c.rule = "same input families as C01 plus inheritance/include cycles and include lattices (2^depth paths); a run is a hang candidate when the logical watchdog (EOF-read, token-fetch or ancestor-walk budget, > 100x the measured legitimate maximum) trips in-process or the worker overflows its stack; it is a violation only if the plain binary then prints `timeout` in 3 of 3 serial reruns made while all workers are paused. distinct_nontrivial = distinct (mode, source) pairs whose run printed output or hung"
 		c.assumptions = []string{"a black-box `timeout` without logical evidence (slow machine) is counted as inconclusive_slow and never reported", "budgets: eof 5000+50n, tokens 20000+400n for n input bytes"}
 		runFamilies(c, robustFamilies(c, [][]string{{}, {"-i"}}), "C02", c.N(3, 2), false)
 	}})
